@@ -299,7 +299,8 @@ def run_scenario(sc, build_generator, inspect=None):
                 sim.client = socketio.last_client()
                 tower.wait_loaded()
                 if sc.get("look_to_time") is not None:
-                    bot.look_to_has_been_called(sc["look_to_time"])
+                    # (exactly what server_main does with --look-to-time; suites/glue.py checks that it does)
+                    bot.look_to_has_been_called(float(Fraction(sc["look_to_time"])))
                 bot.main_loop()
                 outcome = ["exited"]
         except Stop:
